@@ -167,6 +167,22 @@ func conflictKindOfMsg(msg string) string {
 	return ""
 }
 
+// conflictMsg is the message that reports exactly this conflict.
+func conflictMsg(c ref.Conflict) string {
+	switch c.Kind {
+	case "relation-clash":
+		parts := strings.SplitN(c.Name, "#", 2)
+		return fmt.Sprintf("relation %s already exists on type %s", parts[1], parts[0])
+	case "duplicate-type":
+		return "duplicate type definition " + c.Name
+	case "duplicate-condition":
+		return "duplicate condition " + c.Name
+	case "missing-extension-target":
+		return fmt.Sprintf("extended type %s does not exist", c.Name)
+	}
+	return ""
+}
+
 func c07Check(ctx *core.Ctx, cs *mergeCase, o *mergeObs, want *ref.MergeOutcome) bool {
 	viol := func(kind, what, exp, obs string) bool {
 		ctx.Violation(kind, fmt.Sprintf("%s [order %v schema %q schedule %v]: %s", cs.Tag, cs.Order, cs.Schema, cs.Choices, what), cs, exp, obs)
@@ -194,7 +210,7 @@ func c07Check(ctx *core.Ctx, cs *mergeCase, o *mergeObs, want *ref.MergeOutcome)
 			ctx.Flag("c07:conflict:" + c.Kind)
 			found := false
 			for _, e := range o.errs {
-				if e.Syntax || conflictKindOfMsg(e.Msg) != c.Kind {
+				if e.Syntax || e.Msg != conflictMsg(c) {
 					continue
 				}
 				for _, f := range c.Files {
@@ -324,7 +340,7 @@ func replayMerge(c json.RawMessage) (*mergeCase, []renderedFile) {
 func init() {
 	core.Register(&core.Check{
 		ID: "C07",
-		Rule: "module file sets: 2 files x <= 2 declarations (quick; thorough 2 x <= 3 and 3 x <= 2; quick adds 3 x <= 1) from a menu of 11 declarations " +
+		Rule: "module file sets: 2 files x <= 2 declarations (quick; thorough 2 x <= 3 and 3 x <= 2; quick adds 3 x <= 1) from a menu of 12 declarations " +
 			"(types with/without relations, extensions with fresh / clashing / no relations, extension of an undefined type, conditions), plus sets completed by one of 7 malformed members " +
 			"(model-header files with/without relations/conditions, syntax errors, module without name, type extended twice) x every permutation of the file list x schema versions " +
 			"x map schedules of the merger's six map-iteration sites (budget 1 quick / 2 thorough). Oracle: reference merge over the declarations the generator wrote. " +
